@@ -72,6 +72,9 @@ type vfGen struct {
 	nLow     map[string]int
 	// rich: pre-state operations also vary the presence of optional payload fields
 	rich bool
+	// enums: next-hops carry encapsulate-/decapsulate-header enum numbers (pre-state: defined numbers;
+	// symbolic steps: any int32)
+	enums bool
 }
 
 func (g *vfGen) id() uint64 { g.nextID++; return g.nextID }
@@ -100,6 +103,10 @@ func (g *vfGen) nh(name string) *vfOpD {
 	}
 	if g.rich && vfBool(name+".hasPop") {
 		d.hasPop, d.pop = true, vfBool(name+".pop")
+	}
+	if g.enums {
+		d.encap, d.decap = vfI32(name+".encap"), vfI32(name+".decap")
+		vfAssume(vfAnd(vfEncapDefined(d.encap), vfEncapDefined(d.decap)))
 	}
 	return d
 }
@@ -198,6 +205,9 @@ func (g *vfGen) anyOf(name string, maxMembers, typLo, typHi int, kinds []int) *v
 		if vfBool(name + ".hasPop") {
 			d.hasPop, d.pop = true, vfBool(name+".pop")
 		}
+		if g.enums {
+			d.encap, d.decap = vfI32(name+".encap"), vfI32(name+".decap")
+		}
 	}
 	return d
 }
@@ -276,6 +286,7 @@ type vfRunCfg struct {
 	typHi    int
 	kinds    []int
 	mapOrder bool // nondeterministic map iteration order (held-operation walk)
+	enums    bool // next-hop enum fields (see vfGen.enums)
 }
 
 // vfRIBRun: canonical pre-state + symbolic steps, each answer checked against
@@ -286,7 +297,7 @@ func vfRIBRun(c vfRunCfg) {
 		fwd = vfBool("forward-references")
 	}
 	r, ref := vfNewPair(fwd)
-	g := &vfGen{rich: c.rich, fixLow: c.fixLow, splitLow: c.splitLow}
+	g := &vfGen{rich: c.rich, fixLow: c.fixLow, splitLow: c.splitLow, enums: c.enums}
 	pre := c.pre
 	if !fwd {
 		pre.nHeld = 0
